@@ -89,6 +89,11 @@ class VerifyAttrs(object):
                 )
 
         is_ptr = ast.is_indirect()
+        if attrs["dimension"] and not isinstance(attrs["dimension"], str):
+            raise RuntimeError(
+                "dimension attribute must be a string, not '{}'"
+                .format(attrs["dimension"])
+            )
         if attrs["dimension"] and not is_ptr:
             raise RuntimeError(
                 "dimension attribute can only be "
@@ -272,6 +277,11 @@ class VerifyAttrs(object):
             if dimension is True:
                 raise RuntimeError(
                     "dimension attribute must have a value."
+                )
+            if not isinstance(dimension, str):
+                raise RuntimeError(
+                    "dimension attribute must be a string, not '{}'"
+                    .format(dimension)
                 )
             if attrs["value"]:
                 raise RuntimeError(
